@@ -66,6 +66,8 @@ def main():
     c03_containers.containers(run, drv)
     import c03_hist
     c03_hist.histories(run, drv)
+    c03_hist.rereads(run, drv)
+    c03_hist.subsub(run, drv)
     S.witnesses(run, drv)
     if run.tier == "thorough":
         run.leanchecker(["TdVerif.Props.C03"])
